@@ -66,7 +66,7 @@ def rule_entry_fields(prog, fixture=False, only=None, rule_id="R-C02-1"):
                 r.add(key, "%s:%d" % (fn.relfile(), fn.line), ok, "lock flag = top bit of the directory byte" if ok else
                       "is_locked does not test exactly bit 7 of the directory byte: %s" % got.show())
                 continue
-            want = expected_bv(LAYOUT[nm], got.width)
+            want = expected_bv(LAYOUT[nm], max(got.width, len(LAYOUT[nm])))
             diff = compare(got, want)
             r.add(key, "%s:%d" % (fn.relfile(), fn.line), not diff,
                   "all %d result bits carry the documented input bits" % got.width if not diff else
